@@ -190,7 +190,7 @@ pub fn def(tier: Tier) -> PropertyDef {
                 .rates(&[("negated", 0.1), ("id_regex", 0.2), ("type_criterion", 0.2), ("level_criterion", 0.2), ("payload_criterion", 0.2), ("ignore_case", 0.05), ("some_match", 0.2), ("ext_criterion_on_msg_without_ext", 0.1)])
                 .boxed(),
             sub("dlf_frontend", tier.pick(150_000, 2_000_000), (prop::collection::vec(af(), 1..4), msgs()), dlf_frontend).rates(&[("payload_criterion", 0.2), ("some_match", 0.2)]).boxed(),
-            sub("eac_frontend_binary", tier.pick(400, 10_000), prop::collection::vec(crate::props::c14::eac_af(), 1..4), eac_frontend).rates(&[("eac_regex", 0.2), ("ge2_expressions", 0.3)]).shrink_iters(60).slow().boxed(),
+            sub("eac_frontend_binary", tier.pick(400, 10_000), prop::collection::vec(crate::props::c14::eac_af(), 1..4), eac_frontend).rates(&[("eac_regex", 0.1), ("ge2_expressions", 0.2)]).shrink_iters(60).slow().boxed(),
             sub("convert_format", tier.pick(100_000, 1_000_000), (prop::collection::vec((ids(), ids()), 0..5), msgs()), convert_frontend).rates(&[("some_match", 0.05)]).boxed(),
         ],
         workers: 16,
